@@ -172,9 +172,22 @@ def coq_hygiene(files=None):
 
 
 def coq_makefile():
-    mk = os.path.join(COQ, "Makefile")
+    """_CoqProject is generated: `-Q . V` + every .v under coq/ except Extract/ (extraction scripts are run by ocaml/Makefile)."""
+    files = []
+    for dp, _, fs in os.walk(COQ):
+        rel = os.path.relpath(dp, COQ)
+        if rel.split(os.sep)[0] in ("Extract",):
+            continue
+        for f in fs:
+            if f.endswith(".v") and not f.startswith("."):
+                files.append(os.path.normpath(os.path.join(rel, f)))
+    content = "-Q . V\n" + "".join(x + "\n" for x in sorted(files))
     proj = os.path.join(COQ, "_CoqProject")
-    if (not os.path.exists(mk)) or os.path.getmtime(mk) < os.path.getmtime(proj):
+    old = open(proj).read() if os.path.exists(proj) else ""
+    mk = os.path.join(COQ, "Makefile")
+    if old != content or not os.path.exists(mk):
+        with open(proj, "w") as f:
+            f.write(content)
         sh("coq_makefile -f _CoqProject -o Makefile", cwd=COQ, timeout=120)
 
 
